@@ -30,7 +30,9 @@
 //!   ULEB offsets, and the order of top-level siblings carries no meaning.  Identities are
 //!   pre-order indices in this normalised order.  (Option `base_types_first`.)
 //! * CFI: every FDE with its CIE's fields inlined (CIE sharing / order / unreferenced CIEs
-//!   are encoding) and the complete unwind table.
+//!   are encoding) and the complete unwind table; adjacent rows with identical CFA, rules and
+//!   args size are merged (how a run of advance_loc instructions is split is encoding); an
+//!   absent FDE pointer encoding is DW_EH_PE_absptr.
 //!
 //! A dump step that fails records `E(variant name)` at that node instead of aborting.
 //! The DIE forest is rendered *flat* (pre-order list with depths), so neither building nor
@@ -1160,13 +1162,8 @@ fn cie_fields<R: Reader>(cie: &gimli::CommonInformationEntry<R>) -> D {
                 None => D::Nil,
             },
         ),
-        (
-            "fde_enc",
-            match cie.fde_address_encoding() {
-                Some(e) => D::U(e.0 as u64),
-                None => D::Nil,
-            },
-        ),
+        // absent 'R' augmentation == DW_EH_PE_absptr
+        ("fde_enc", D::U(cie.fde_address_encoding().map(|e| e.0 as u64).unwrap_or(0))),
         ("signal", D::B(cie.is_signal_trampoline())),
     ])
 }
@@ -1259,13 +1256,32 @@ where
                             rules.push((r.0, d));
                         }
                         rules.sort_by_key(|x| x.0);
-                        rows.push(rec(vec![
-                            ("start", D::U(row.start_address())),
-                            ("end", D::U(row.end_address())),
-                            ("cfa", cfa),
-                            ("rules", D::L(rules.into_iter().map(|(r, d)| D::L(vec![D::U(r as u64), d])).collect())),
-                            ("args_size", D::U(row.saved_args_size())),
-                        ]));
+                        let rules = D::L(rules.into_iter().map(|(r, d)| D::L(vec![D::U(r as u64), d])).collect());
+                        let args = D::U(row.saved_args_size());
+                        // adjacent rows with identical contents are one row (how a run of
+                        // advance_loc instructions is split is encoding)
+                        let mut merged = false;
+                        if let Some(D::R(prev)) = rows.last_mut() {
+                            if prev.len() == 5
+                                && prev[1].1 == D::U(row.start_address())
+                                && prev[2].1 == cfa
+                                && prev[3].1 == rules
+                                && prev[4].1 == args
+                                && row.end_address() >= row.start_address()
+                            {
+                                prev[1].1 = D::U(row.end_address());
+                                merged = true;
+                            }
+                        }
+                        if !merged {
+                            rows.push(rec(vec![
+                                ("start", D::U(row.start_address())),
+                                ("end", D::U(row.end_address())),
+                                ("cfa", cfa),
+                                ("rules", rules),
+                                ("args_size", args),
+                            ]));
+                        }
                     }
                 }
             },
